@@ -1,6 +1,14 @@
 (* C20 driver: same case lines as harness-gui/src/guiloop.rs
-   gui <seed> <pre> <gw> <dict> <step>...   (seed, pre, gw, dict and pause lengths do not exist in the model:
-   the model's thread runs to quiescence at every pause / probe and at the end) *)
+   gui <seed> <pre> <gw> <dict> <step>...   (seed, dict and pause lengths do not exist in the model: the model's
+   thread runs to quiescence at every pause / probe and at the end).
+   The GUI thread's part is played through the model's own actions:
+   - scripted steps GL / GW / GU / GX are queued like the harness's helper thread queues them and applied as
+     GuiLock / GuiWrite / GuiUnlock / GuiShutdown as soon as the model's mutex allows (a GuiLock on a mutex
+     held by the thread stays queued: `g:wait`);
+   - the timed writer `gw n:ms` is played as n bursts GuiLock; GuiWrite; GuiUnlock whose actions are
+     interleaved ONE BY ONE with the single steps of the thread whenever the thread runs (the real writer's
+     timing is unknown; by C20_gui_writes_do_not_lose_events / C20_drains the forwarded events do not
+     depend on it, and the comparison with the real threads checks exactly that). *)
 let variant () = match Sys.getenv_opt "VERIF_GUI_VARIANT" with Some "original" -> original | _ -> repaired
 
 (* PDU names: B<id>.<id>... = bitmap update with these event ids; U = disconnect ultimatum;
@@ -26,10 +34,48 @@ let state_name q = match q with
 let state_of q = match q with RSpin s -> s | RQuiet s -> s
 
 let op_gui args = match args with
-  | _seed :: _pre :: _gw :: _dict :: steps ->
+  | _seed :: pre :: gw :: _dict :: steps ->
     let v = variant () in
-    let settle s = quiesce v (fuel_of s) s in
+    let npre = if pre = "-" then 0 else List.length (String.split_on_char '+' pre) in
+    let gw_n = match String.split_on_char ':' gw with n :: _ -> int_of_string n | _ -> 0 in
     let s = ref init in
+    (* --- the timed writer: its remaining actions, one burst = lock, write, unlock *)
+    let wleft = ref (List.concat (List.init gw_n (fun k -> [GuiLock; GuiWrite (n_of_int k); GuiUnlock]))) in
+    let writer_action budget =
+      (* the writer's next action, if it can be done now; a GuiLock on a taken mutex waits *)
+      match !wleft with
+      | [] -> false
+      | GuiLock :: rest ->
+        if !budget > 0 && !s.lock = Free then (s := env_step GuiLock !s; wleft := rest; decr budget; true) else false
+      | a :: rest -> s := env_step a !s; wleft := rest; true in
+    (* --- the scripted GUI thread: queue of pending commands *)
+    let gq = ref [] in
+    let wcount = ref 0 in
+    let rec pump () = match !gq with
+      | [] -> ()
+      | 'L' :: rest ->
+        (match !s.lock with
+         | Free -> s := env_step GuiLock !s; gq := rest; pump ()
+         | HeldByGui -> gq := rest; pump ()
+         | HeldByRecv -> ())
+      | 'W' :: rest -> incr wcount; s := env_step (GuiWrite (n_of_int !wcount)) !s; gq := rest; pump ()
+      | 'U' :: rest -> s := env_step GuiUnlock !s; gq := rest; pump ()
+      | 'X' :: rest -> s := env_step GuiShutdown !s; gq := rest; pump ()
+      | _ :: rest -> gq := rest; pump () in
+    (* --- the thread runs until it cannot move, the GUI's pending actions interleaved step by step *)
+    let settle () =
+      let budget = ref 2 in                      (* bursts of the timed writer started during this settle *)
+      let fuel = ref (20 * (int_of_nat (fuel_of !s)) + 50) in
+      let spin = ref false in
+      let continue = ref true in
+      while !continue do
+        let a = writer_action budget in
+        pump ();
+        (match tstep v !s with
+         | Some s' -> s := s'; decr fuel; if !fuel <= 0 then (spin := true; continue := false)
+         | None -> if not a then continue := false)
+      done;
+      if !spin then RSpin !s else RQuiet !s in
     let outp = ref [] in
     List.iter (fun step ->
       let kind, rest = match String.index_opt step ':' with
@@ -37,21 +83,28 @@ let op_gui args = match args with
         | None -> step, "" in
       match kind with
       | "W" -> s := env_step (Send (List.concat_map tokens_of_piece (String.split_on_char '+' rest))) !s
-      | "P" -> s := state_of (settle !s)
-      | "I" -> let q = settle !s in
+      | "P" -> s := state_of (settle ())
+      | "I" -> let q = settle () in
         s := state_of q;
         outp := Printf.sprintf "i:%d:%s" (List.length !s.out) (state_name q) :: !outp
       | "E" -> s := env_step (Close (match rest with "cn" -> CloseNotify | "rst" -> Reset | _ -> AbruptFin)) !s
       | "S" -> s := env_step GuiStop !s
+      | "GL" | "GW" | "GU" | "GX" ->
+        gq := !gq @ [kind.[1]]; pump ();
+        outp := (if !gq = [] then "g:ok" else "g:wait") :: !outp
       | "J" -> ()
       | _ -> failwith "bad step") steps;
-    let q = settle !s in
+    let q = settle () in
     let fin = state_of q in
     let ids = List.map (fun x -> string_of_int (int_of_n x)) fin.out in
+    let inputs = List.length (List.filter (fun w -> match w with WInput _ -> true | _ -> false) fin.outb) in
     String.concat " " (List.rev !outp @ [
       "end:" ^ state_name q;
       "ev=" ^ (if ids = [] then "-" else String.concat "." ids);
-      "rel=" ^ (match q with RQuiet { pcs = Exited; _ } -> "1" | _ -> "0") ])
+      "rel=" ^ (match q with RQuiet s when released s -> "1" | _ -> "0");
+      "in=" ^ (if gw_n > 0 || npre < 5 then "*" else
+                 string_of_int inputs ^ (if List.mem WUltimatum fin.outb then "+u" else "")
+                 ^ (if List.mem WCloseNotify fin.outb then "+c" else "")) ])
   | _ -> "bad-args"
 
 let () = main_loop (fun op args -> match op with
